@@ -2,11 +2,11 @@ package main
 
 import (
 	"fmt"
-	"os"
-	"regexp"
 	"go/ast"
 	"go/constant"
 	"go/types"
+	"os"
+	"regexp"
 	"strconv"
 	"strings"
 
@@ -34,22 +34,22 @@ type cellRef struct {
 }
 
 type specEnv struct {
-	eng     *Engine
-	fr      *Frame // frame in which @patterns and source names resolve (may be nil)
-	fn      *ssa.Function
-	resSig  *types.Tuple
-	st      *State
-	old     *State
-	vars    map[string]binding
-	pkg     *types.Package
-	con     *Contract
-	results []Term
-	args    []sval // $0..$n for site clauses
-	letDepth int
-	quant   int
+	eng       *Engine
+	fr        *Frame // frame in which @patterns and source names resolve (may be nil)
+	fn        *ssa.Function
+	resSig    *types.Tuple
+	st        *State
+	old       *State
+	vars      map[string]binding
+	pkg       *types.Package
+	con       *Contract
+	results   []Term
+	args      []sval // $0..$n for site clauses
+	letDepth  int
+	quant     int
 	loopEntry *State
-	atFresh map[string]sval
-	inEval  bool
+	atFresh   map[string]sval
+	inEval    bool
 	inTrigger bool
 }
 
@@ -1359,6 +1359,81 @@ type recInfo struct {
 	comps     []string
 	rt        types.Type
 	declaring bool
+	psorts    []string // opaque (hidden) functions: sorts of the explicit parameters
+}
+
+// allocEvent: component comp changed from old to nw only at cells of objects allocated at or after
+// allocBefore (a stub that fills a fresh object). snap is the state just before the change.
+type allocEvent struct {
+	comp                     string
+	old, nw, allocBefore, pc Term
+	snap                     *State
+}
+
+// noteAllocOnly records such a change and states, for every hidden spec function reading comp, that its
+// value on arguments that already existed is the same over the old and the new version of comp.
+// Sound because a spec function reads the heap only through cells reachable from its arguments, and
+// in snap no object that existed before the event reaches the fresh one.
+func (e *Engine) noteAllocOnly(st *State, snap *State, c string, old, nw, allocBefore Term) {
+	ev := allocEvent{comp: c, old: old, nw: nw, allocBefore: allocBefore, pc: st.pc, snap: snap}
+	e.allocEvents = append(e.allocEvents, ev)
+	keys := map[string]bool{}
+	for k := range e.recFns {
+		keys[k] = true
+	}
+	for _, k := range sortedKeys(keys) {
+		if strings.HasPrefix(k, "opaque:") {
+			e.opaqueFrame(e.recFns[k], ev)
+		}
+	}
+}
+
+func (e *Engine) opaqueFrame(ri *recInfo, ev allocEvent) {
+	if ri.declaring {
+		return
+	}
+	reads := false
+	for _, c := range ri.comps {
+		if c == ev.comp {
+			reads = true
+		}
+	}
+	if !reads {
+		return
+	}
+	var decls, args, conds []string
+	for i, so := range ri.psorts {
+		a := fmt.Sprintf("oa%d", i)
+		decls = append(decls, fmt.Sprintf("(%s %s)", a, so))
+		args = append(args, a)
+		switch so {
+		case "Loc":
+			conds = append(conds, fmt.Sprintf("(< (rootid %s) %s)", a, ev.allocBefore))
+		case "Slice":
+			conds = append(conds, fmt.Sprintf("(< (rootid (s_arr %s)) %s)", a, ev.allocBefore))
+		case "Str", "Int", "Bool", "Real":
+		default:
+			return // interface or composite argument: no frame statement
+		}
+	}
+	if len(decls) == 0 {
+		return
+	}
+	var h1, h2 []Term
+	for _, c := range ri.comps {
+		if c == ev.comp {
+			h1 = append(h1, ev.old)
+			h2 = append(h2, ev.nw)
+		} else {
+			t := e.get(ev.snap, c)
+			h1 = append(h1, t)
+			h2 = append(h2, t)
+		}
+	}
+	a1 := app(ri.sym, append(h1, args...)...)
+	a2 := app(ri.sym, append(h2, args...)...)
+	e.vc.assumes["hidden spec functions depend on the heap only through cells reachable from their arguments"] = true
+	e.vc.assumeIf(ev.pc, fmt.Sprintf("(forall (%s) (! (=> %s (= %s %s)) :pattern (%s) :pattern (%s)))", strings.Join(decls, " "), and(append(conds, "true")...), a1, a2, a1, a2))
 }
 
 // callRec: application of a recursive spec function. The function symbol takes the heap components
@@ -1507,6 +1582,12 @@ func (env *specEnv) callOpaque(pf *PureFn, args []Expr) sval {
 			sorts = append(sorts, vc.sortOf(t))
 		}
 		vc.decls = append(vc.decls, fmt.Sprintf("(declare-fun %s (%s) %s)", ri.sym, strings.Join(sorts, " "), vc.sortOf(ri.rt)))
+		for _, t := range ptypes {
+			ri.psorts = append(ri.psorts, vc.sortOf(t))
+		}
+		for _, ev := range e.allocEvents {
+			e.opaqueFrame(ri, ev)
+		}
 	}
 	var hs []Term
 	for _, c := range ri.comps {
